@@ -65,29 +65,41 @@ func trimOWS(s string) string { return strings.Trim(s, " \t") }
 // empty list elements. Such headers only get the "no crash / decodable by
 // its own Content-Type" check.
 func parseAccept7231(values []string) (ranges []mediaRange, ok bool) {
+	ranges, excl, ok := parseAcceptExcl(values)
+	if len(excl) > 0 {
+		return nil, false
+	}
+	return ranges, ok
+}
+
+// parseAcceptExcl additionally understands the one unambiguous use of
+// media-type parameters: "type/subtype;param=value;q=0" (the weight follows
+// the parameters, RFC 7231 5.3.2) EXCLUDES that type whatever the parameter
+// means. Such types are returned in excluded and not in ranges.
+func parseAcceptExcl(values []string) (ranges []mediaRange, excluded []string, ok bool) {
 	for _, v := range values {
 		if strings.ContainsAny(v, "\"\r\n") || v != trimOWS(v) {
-			return nil, false
+			return nil, nil, false
 		}
 		for _, el := range strings.Split(v, ",") {
 			el = trimOWS(el)
 			if el == "" {
-				return nil, false
+				return nil, nil, false
 			}
 			parts := strings.Split(el, ";")
 			mr := trimOWS(parts[0])
 			if mr != strings.ToLower(mr) {
-				return nil, false
+				return nil, nil, false
 			}
 			t, s, found := strings.Cut(mr, "/")
 			if !found || !isToken(t) || !isToken(s) {
-				return nil, false
+				return nil, nil, false
 			}
 			if t == "*" && s != "*" {
-				return nil, false
+				return nil, nil, false
 			}
 			if (strings.Contains(t, "*") && t != "*") || (strings.Contains(s, "*") && s != "*") {
-				return nil, false
+				return nil, nil, false
 			}
 			r := mediaRange{typ: t, sub: s, q: 1}
 			switch len(parts) {
@@ -95,16 +107,33 @@ func parseAccept7231(values []string) (ranges []mediaRange, ok bool) {
 			case 2:
 				prm := trimOWS(parts[1])
 				if !strings.HasPrefix(prm, "q=") || !reQvalue.MatchString(prm[2:]) {
-					return nil, false
+					return nil, nil, false
 				}
 				fmt.Sscanf(prm[2:], "%g", &r.q)
 			default:
-				return nil, false
+				// type/subtype;param=value[;...];q=0
+				last := trimOWS(parts[len(parts)-1])
+				if r.typ == "*" || r.sub == "*" || !strings.HasPrefix(last, "q=") || !reQvalue.MatchString(last[2:]) {
+					return nil, nil, false
+				}
+				var q float64
+				fmt.Sscanf(last[2:], "%g", &q)
+				if q != 0 {
+					return nil, nil, false
+				}
+				for _, prm := range parts[1 : len(parts)-1] {
+					k, val, found := strings.Cut(trimOWS(prm), "=")
+					if !found || !isToken(k) || !isToken(val) || strings.EqualFold(k, "q") {
+						return nil, nil, false
+					}
+				}
+				excluded = append(excluded, r.typ+"/"+r.sub)
+				continue
 			}
 			ranges = append(ranges, r)
 		}
 	}
-	return ranges, true
+	return ranges, excluded, true
 }
 
 // admitted evaluates a media type against the ranges: the most specific
@@ -372,6 +401,30 @@ func execC04Once(e *env, c *Case, handler string) (o outcome) {
 	verdict := "accept-not-evaluated"
 	if len(acc) == 0 {
 		verdict = "accept-absent"
+	} else if ranges, excl, ok := parseAcceptExcl(acc); ok && len(excl) > 0 {
+		// "type;param=x;q=0": the type is excluded. A server that ignores the
+		// whole header line and answers in the request's own type is accepted
+		// too; choosing the excluded type although it is not the request's own
+		// and another registered type is admitted is not.
+		verdict = "accept-parameter-q0"
+		isExcl := false
+		for _, x := range excl {
+			isExcl = isExcl || x == ct
+		}
+		otherAdmitted := false
+		for _, t := range e.mediaTypes() {
+			tExcl := false
+			for _, x := range excl {
+				tExcl = tExcl || x == t
+			}
+			if m, qmin, _ := admitted(ranges, t); m && qmin > 0 && !tExcl {
+				otherAdmitted = true
+			}
+		}
+		if isExcl && ct != reqCT && otherAdmitted {
+			o.add("c04:accept:q0-excluded-type-chosen:excluded-by=exact-with-parameter", fmt.Sprintf("%s: response Content-Type %q is excluded by a range with a media-type parameter followed by q=0, is not the request's own type, and another registered type is admitted", ctx, ct))
+			return
+		}
 	} else if ranges, ok := parseAccept7231(acc); ok {
 		anyMust, anyMay := false, false
 		builtinMust, customMust := false, false
@@ -539,6 +592,8 @@ var (
 		{"application/*;q=0, application/protobuf;q=0.9, */*"},
 		{"application/json;q=0, application/octet-stream;q=0, application/protobuf;q=0.5, */*;q=0.9"},
 		{"application/protobuf;q=0, application/octet-stream"}, {"application/*;q=0.5, application/json;q=0"},
+		{"application/json;charset=utf-8;q=0, application/protobuf"}, {"application/protobuf;v=1;q=0, application/json"},
+		{"application/json; charset=utf-8 ; q=0.000, */*"}, {"application/octet-stream;x=y;q=0, application/json;charset=utf-8;q=0, application/*"},
 	}
 	acceptEncodingPool = [][]string{nil, nil, {"gzip"}, {"identity"}, {"*"}, {"gzip;q=0"}, {"deflate, br"}, {"gzip, identity;q=0.5"}, {"identity;q=0, gzip"},
 		{"junk/x"}, {"application/json"}, {"gzip;q=0.5, *;q=0"}, {"gzip", "deflate"}, {"GZIP"}, {"x-gzip"}, {"google.api.HttpBody"}}
